@@ -197,6 +197,22 @@ def main(tier: str) -> int:
 
                             add(key, {"cfg": {k: v for k, v in cfg.items() if k != "groups"}, "statements": per_sink}, bool(o["raised"]), fn, items,
                                 "seq" if integ == "generic" else "set")
+    # an rdflib Dataset (default graph AND named graphs) handed to a TripleStream: the graph names go by design, every triple must be written
+    for lt in (3, 13, 1):
+        for delimited in (True, False):
+            if lt == 1 and False:
+                continue
+            quads = [(I(f"http://e/s{k}"), I("http://e/p"), I(f"http://e/o{k}"), g_) for k, g_ in enumerate([G1, G1, G2, G2, I("http://g/3")])]
+            triples = [q[:3] for q in quads]
+            cfg = impl.default_cfg(integ="rdflib", entry="stream_frames", sclass="triple", ltype=lt, delimited=delimited, frame_size=2, preset=(8, 4, 2),
+                                   gen=False, star=False, as_sink=True, dataset=True)
+            key = {"integ": "rdflib", "entry": "stream_frames", "sclass": "triple", "ltype": impl.LT_NAMES[lt], "delimited": delimited, "flow": "inferred",
+                   "frame_size": 2, "sinks": 1, "input": "Dataset"}
+
+            def fn_ds(cfg=cfg, quads=quads, delimited=delimited):
+                return impl.serialize(cfg, quads), delimited, None, None
+
+            add(key, {"cfg": cfg, "statements": quads}, False, fn_ds, triples, "set")
     # generic sink.serialize (options guessed)
     for quads in (False, True):
         items = sink_statements(0, quads)
